@@ -413,7 +413,9 @@ func (c *Ctx) convertInt(v Val, to types.Type, spec bool) Val {
 	from := v.Ty
 	if c.Mode == ArithBV {
 		if v.Wide {
-			if spec {
+			// specification side: conversions to 64-bit types keep the mathematical value,
+			// conversions to narrower types truncate (byte(x), uint32(x), ...)
+			if spec && intWidth(to) >= 64 {
 				return Val{T: v.T, Ty: to, Wide: true}
 			}
 			return Val{T: c.narrow(v, to), Ty: to}
@@ -421,7 +423,16 @@ func (c *Ctx) convertInt(v Val, to types.Type, spec bool) Val {
 		return Val{T: c.bvResize(v.T, intWidth(from), intWidth(to), !isUnsigned(from)), Ty: to}
 	}
 	if spec {
-		return Val{T: v.T, Ty: to}
+		// specification side: mathematical integers; only narrowing conversions truncate
+		if intWidth(to) >= 64 {
+			return Val{T: v.T, Ty: to}
+		}
+		flo, fhi := typeRange(from)
+		tlo, thi := typeRange(to)
+		if flo.Cmp(tlo) >= 0 && fhi.Cmp(thi) <= 0 {
+			return Val{T: v.T, Ty: to}
+		}
+		return Val{T: c.wrapInt(v.T, to), Ty: to}
 	}
 	flo, fhi := typeRange(from)
 	tlo, thi := typeRange(to)
